@@ -175,6 +175,9 @@ def generate(rng, tier):
         calls = [{"kind": "cpu_list", "cpu_list": [rng.randrange(1, p["ncpu"] + 1)]}, {"kind": "full"}] + calls[: max(0, len(calls) - 2)]
         if rng.random() < 0.6:
             p["ghost_p"] = 0.0  # no ghost copies: a file then holds only the levels its own rank has
+    if "density" in p["hydro_vars"] and rng.random() < 0.08:
+        # two loads in a row that differ in the sort key alone, the second key having ties (cells of one level share dx)
+        calls = [{"kind": "sortby", "sortby": {"mesh": "density"}}, {"kind": "sortby", "sortby": {"mesh": "dx"}}] + calls[: max(0, len(calls) - 2)]
     shared_preds = rng.random() < 0.15
     if shared_preds:
         # the caller keeps one predicate object per variable and changes what it accepts between calls
